@@ -40,10 +40,13 @@ class StepSizeCC(ctrl.ArbitraryCC):
     def prepare_next_block(self, controller, S, size, time, Tend, **kw):
         self.trace.append(('cc', 'prepare_next_block', S.status.slot if S.status.slot is not None else -1))
         if self.dtnew is None:
-            self.dtnew = self.fresh.real('dt_next_block')
-            self.mk.assume(self.dtnew > 0, 'callee post: common step size > 0')
-        for L in S.levels:
-            L.params.dt = self.dtnew
+            # one value per level: the coarse levels' step sizes are NOT tied to the fine one (adaptivity writes dt_new on the
+            # finest level only, the spreader keeps each coarser level's own value)
+            self.dtnew = [self.fresh.real('dt_next_block' if l == 0 else f'dt_next_block_L{l}') for l in range(len(S.levels))]
+            for d in self.dtnew:
+                self.mk.assume(d > 0, 'callee post: common step size > 0')
+        for l, L in enumerate(S.levels):
+            L.params.dt = self.dtnew[l]
 
 
 def make_paradiag_controller(mk, n):
@@ -74,8 +77,11 @@ def setup_run(mk, inst):
         dt = mk.real(f'dt{p}')
         mk.assume(dt > 0, 'dt>0')
         dts.append(dt)
-        for L in S.levels:
-            L.params.dt = dt
+        for l, L in enumerate(S.levels):
+            # the step a Step covers is the FINE level's [time, time + dt]; coarser levels carry their own (arbitrary) value
+            L.params.dt = dt if l == 0 else mk.real(f'dt{p}_L{l}')
+            if l > 0:
+                mk.assume(L.params.dt > 0, 'dt>0')
     st = State(c=c, trace=trace, cc=cc, fresh=fresh, n=n, nl=nl, inst=inst, dts=dts, mk=mk, uends={}, ustarts={}, paradiag=paradiag)
 
     def restart_block(active_slots, time, u0):
@@ -118,6 +124,11 @@ def setup_run(mk, inst):
     return st
 
 
+def fine_dt(S):
+    """length of the interval a step covers: what its finest level integrates over (NOT the Step.dt property, which is code under check)"""
+    return S.levels[0].params.dt
+
+
 def thr(Tend):
     return Tend - EPS10
 
@@ -140,9 +151,9 @@ def inv_clauses(st, L, tag='inv'):
             yield f'{tag}:active_flag[{p}]', Iff(active[p], time[p] < thr(Tend))
         yield f'{tag}:active_slot_membership[{p}]', Iff(active[p], p < a)
     for p in range(1, a):
-        yield f'{tag}:time_accumulates[{p}]', seq(time[p], time[p - 1] + c.MS[p - 1].dt)
+        yield f'{tag}:time_accumulates[{p}]', seq(time[p], time[p - 1] + fine_dt(c.MS[p - 1]))
     for p in range(a):
-        yield f'{tag}:dt_positive[{p}]', c.MS[p].dt > 0
+        yield f'{tag}:dt_positive[{p}]', fine_dt(c.MS[p]) > 0
         yield f'{tag}:level_time[{p}]', And(*[seq(Lv.status.time, time[p]) for Lv in c.MS[p].levels])
 
 
@@ -234,13 +245,13 @@ class RunBody(_RunBase):
     name = 'controller_nonMPI.run[loop body]'
 
     def instances(self, tier):
-        return [dict(n=n, a=a, nlevels=1) for n in self.Ns(tier) for a in range(1, n + 1)]
+        return [dict(n=n, a=a, nlevels=nl) for n in self.Ns(tier) for a in range(1, n + 1) for nl in (1, 2) if not (nl == 2 and n > 2)]
 
     def build(self, inst, mk):
         st = setup_run(mk, inst)
         st.L = arbitrary_head(st, mk, inst['a'])
         st.old_time = list(st.L['time'])
-        st.old_dt = [S.dt for S in st.c.MS]
+        st.old_dt = [fine_dt(S) for S in st.c.MS]
         st.old_ustart = [cp(S.levels[0].u[0]) if S.levels[0].u[0] is not None else None for S in st.c.MS]
 
         def call():
